@@ -424,6 +424,7 @@ package stree
 //@   ensures  [C03,C04] last: c != nil && old(len(c.path)) != 0 && len(c.path) == 0 ==> forall k int :: {k in old(c.path[0]).keys} k in old(c.path[0]).keys ==> k <= old(rank(cmp, cur(c).X))
 //@   call findNext#1: cmp = cmp
 //@   loop 1: invariant [C03,C04] ord: ordPath(c.path, cmp)
+//@   at before "c.path = append(c.path, min)": assert [C03,C04] min in c.path[0].desc && min in old(cur(c).right).desc
 //@   loop 1: invariant [C03,C04] least: len(c.path) > old(len(c.path)) ==> cur(c) in old(cur(c).right).desc && rank(cmp, cur(c).X) in old(cur(c).right).keys && forall k int :: {k in old(cur(c).right).keys} k in old(cur(c).right).keys ==> k in cur(c).keys || k > rank(cmp, cur(c).X)
 //@   ensures  [C03,C04] invalid: c != nil && old(len(c.path)) == 0 ==> len(c.path) == 0
 //@   ensures  [C03,C04] down: c != nil && old(len(c.path)) != 0 && old(cur(c).right) != nil ==> len(c.path) > old(len(c.path)) && samePrefix(c, old(len(c.path))) && cur(c).left == nil
@@ -447,6 +448,7 @@ package stree
 //@   ensures  [C03,C04] first: c != nil && old(len(c.path)) != 0 && len(c.path) == 0 ==> forall k int :: {k in old(c.path[0]).keys} k in old(c.path[0]).keys ==> k >= old(rank(cmp, cur(c).X))
 //@   call findPrev#1: cmp = cmp
 //@   loop 1: invariant [C03,C04] ord: ordPath(c.path, cmp)
+//@   at before "c.path = append(c.path, max)": assert [C03,C04] max in c.path[0].desc && max in old(cur(c).left).desc
 //@   loop 1: invariant [C03,C04] greatest: len(c.path) > old(len(c.path)) ==> cur(c) in old(cur(c).left).desc && rank(cmp, cur(c).X) in old(cur(c).left).keys && forall k int :: {k in old(cur(c).left).keys} k in old(cur(c).left).keys ==> k in cur(c).keys || k < rank(cmp, cur(c).X)
 //@   ensures  [C03,C04] invalid: c != nil && old(len(c.path)) == 0 ==> len(c.path) == 0
 //@   ensures  [C03,C04] down: c != nil && old(len(c.path)) != 0 && old(cur(c).left) != nil ==> len(c.path) > old(len(c.path)) && samePrefix(c, old(len(c.path))) && cur(c).right == nil
